@@ -117,6 +117,9 @@ void treeOf(ChartToC* m, std::ostringstream& o, const std::string& path) {
 }
 
 std::string cmd_dettr(const std::vector<std::string>& a) {
+	// ChartToC numbers the machines of a process through this environment variable (an explicit input a build
+	// script may set); every transformation here starts from the value a fresh process has
+	unsetenv("USCXML_CURRENT_MACHINE_INDEX");
 	if (a.size() < 5) return "ERR usage";
 	std::string be = a[1], url = unhex(a[2]), xml = unhex(a[3]), outfile = unhex(a[4]);
 	std::ostringstream o;
